@@ -6,7 +6,7 @@
 From Coq Require Import List NArith ZArith Lia.
 From Coq.Strings Require Import Byte.
 Import ListNotations.
-From BWLexer Require Import Utf8 Unicode Lexer LexerProofs Utf8Proofs CaseProofs PrintedProofs WsProofs WsSim WsMain WsIns.
+From BWLexer Require Import Utf8 Unicode Lexer LexerProofs Utf8Proofs CaseProofs PrintedProofs WsProofs WsSim WsMain WsIns WsIns2.
 From BWLexer.Gen Require Import LexTablesGen.
 
 (* ---------------------------------------------------------------- termination / channel closed *)
@@ -390,6 +390,33 @@ Proof.
   - cbn. lia.
   - intros [H|[H|H]]; discriminate H.
 Qed.
+
+(* (D) the same for EVERY token kind except the filter function name, before a further token (bb non-empty): a Time or a
+   PredicateBound token produced by lexTime / lexPredicateGlobalTime ends at ';' or ')' without consuming it but consumes
+   white space, so with white space inserted it GROWS by g white-space bytes (g = 1, or the whole run when the lexer was
+   skipping blanks after the comma of a bound): kind and start are unchanged, the text gains surrounding white space only
+   ("texts up to surrounding whitespace"); all other tokens are as in (C): g = 0. *)
+Theorem C16_whitespace_insert_any_partial : forall (U : uni), ascii_ok U ->
+  forall (xb ws bb : list byte),
+    Forall (fun b => (9 <= bz b <= 13)%Z \/ bz b = 32%Z) ws -> ws <> [] ->
+    (exists a bb', bb = a :: bb' /\ (bz a < 128)%Z) ->
+    (forall pat, pat = map bz s_anchor \/ pat = map bz s_literalType ->
+       forall P S pat', map fst (decode_all xb) = P ++ S -> S <> [] -> pat = S ++ pat' -> pat' = []) ->
+  forall (pre : list token) (t : token) (post : list token),
+    fst (lex_with U (xb ++ bb)) = pre ++ t :: post -> post <> [] -> tk_end t = length xb -> tk_start t < tk_end t ->
+    tk_kind t <> ItemFilterFunction ->
+    exists g, (g = 0 \/ (1 <= g <= length ws /\ (tk_kind t = ItemTime \/ tk_kind t = ItemPredicateBound))) /\
+      fst (lex_with U (xb ++ ws ++ bb)) =
+        pre ++ (tk_kind t, tk_start t, tk_end t + g) ::
+               map (fun u => (tk_kind u, tk_start u + length ws, tk_end u + length ws)) post.
+Proof. exact ws_insert2_bytes. Qed.
+Print Assumptions C16_whitespace_insert_any_partial.
+
+(* e.g.  < 1;  ->  < 1<SP>;  : the Time token "1" becomes "1<SP>" *)
+Example C16_whitespace_insert_time_example :
+  lex_texts [x3c;x20;x31;x3b] = [(ItemLT, [x3c]); (ItemTime, [x31]); (ItemSemicolon, [x3b]); (ItemEOF, [])] /\
+  lex_texts [x3c;x20;x31;x20;x3b] = [(ItemLT, [x3c]); (ItemTime, [x31;x20]); (ItemSemicolon, [x3b]); (ItemEOF, [])].
+Proof. vm_compute. split; reflexivity. Qed.
 
 (* REFUTED as stated in the property (insertion between ANY two adjacent tokens), hence the kind restriction above: a filter function name is only
    emitted by lexFilterFunction when '(' follows immediately; with white space in between it ends in an Error token.
